@@ -240,7 +240,7 @@ def catalogue(rng=None, widths=(1, 2, 3), groups=('arith', 'logic', 'fxp'), big=
         small = [f for f in fmts if sum(f) <= 4] if not widefmts else fmts
         for af in small:
             for bf in small:
-                for rf in fmts:
+                for rf in (fmts + [(1, 5, 0), (1, 6, 1)] if not widefmts else fmts):     # incl. results with more integer bits than the product
                     if af[2] + bf[2] - rf[2] < 0:
                         continue
                     if rng is not None and not (af == bf == rf) and rng.random() > (0.5 if big else (0.3 if widefmts else 0.12)):
